@@ -501,4 +501,13 @@ Section Concrete.
     destruct (consistent seg) eqn:C; cbn [negb orb]; [|reflexivity].
     rewrite (spec_segment_eq seg C). apply eqb_reflx.
   Qed.
+
+  Lemma unit_oracle_model seg frompb :
+    let v := verify_segment_c pki trcs tbl seg in
+    unit_oracle pki trcs (mkstep seg frompb tbl v) v = true.
+  Proof.
+    intros v. unfold unit_oracle. rewrite step_oracle_model. cbn [andb st_seg st_tbl].
+    destruct (consistent seg) eqn:C; cbn [negb]; [|now rewrite orb_true_r].
+    rewrite (spec_segment_eq seg C). fold v. destruct v; reflexivity.
+  Qed.
 End Concrete.
